@@ -1,6 +1,6 @@
 """C09 — derived Encode/Decode round-trip for every type definition."""
 import derivegen as dg
-from derivegen import prepare, route
+from derivegen import prepare, route, oracle
 
 RULE = ("DRT <sid> <schema> <def> <value> <expected> <re-framed hex>…: the value is encoded and decoded again by the real derive output and by "
         "gen_encode/gen_decode of the Coq model; additionally two re-framed encodings of the same value (indefinite-length containers, "
